@@ -122,6 +122,9 @@ OTHER = [
  ("C15", "K-reset-keeps-the-range-cache", "fixed", "e57bab6",
   "Vm::reset() kept the range cache: a range the old program had cached first stayed the cache's oldest entry, was found (not re-stamped) when the new program built an equal range, and was evicted by the very next new range - `var r = 2..6; var t = 900..904; r == 2..6` is false after such a reset and true on a new interpreter",
   {"ir": {"session": [["snip", [["setrange", 1], ["sevenranges", 1]]], ["reset"], ["snip", [["setrange", 1], ["cmprange", 1, 3]]]], "sites": 0, "mod_sites": {}}, "faults": {}}),
+ ("C16", "K-closed-captured-variable-keeps-its-list-link", "fixed", "9706ac1",
+  "a captured variable that was closed kept its link into the fiber's list of open captured variables, and the collector follows that link in every state: a closure that stays alive kept the variables that were open below its own when it closed - and later their values - alive although nothing can reach them (a fiber held only by a dropped closure stayed alive as long as a sibling closure lived)",
+  {"ir": {"body": [], "n": 63, "nat": [], "sites": 2, "slots": [9], "spikes": [], "strand": True}, "faults": {}, "second_vm": False, "reset_rounds": False}),
  ("C01", "K-collector-recurses-on-the-native-stack", "open", None,
   "marking and blackening recurse on the native stack, one level per link: with a 400 000-deep chain of live objects (`l = [l]` in a loop) a collection overflows an 8 MiB stack and the process aborts, while the same program completes when no collection happens (the stock release CLI aborts at about 200 000 links)",
   {"case": "nat", "nseed": 0, "gc_tape": "", "force_collection_at_marker": True, "stack_mib": 8, "source": "var l = nil; var i = 0;\nwhile i < 400000 { l = [l]; i = i + 1; }\n/*GC*/\nprint((\"ev\", \"depth\", i));\nvar n = 0; while l != nil { l = l[0]; n = n + 1; }\nprint((\"ev\", \"walk\", n));\n"}),
